@@ -10,6 +10,7 @@
 //   anyhow::Result / crate::Settings are inert placeholders (no contract)
 use vstd::std_specs::cmp::PartialEqSpec;
 use vstd::std_specs::core::IndexSpecImpl;
+//@include ../_shared/std_extra.rs
 
 // ---- anyhow façade: `use anyhow::Result;` of the source file.  Only `Ok(())` is ever built here.
 pub struct AnyhowError { pub code: u64 }
@@ -102,4 +103,24 @@ pub trait ChainStorage: Sized {
     ) -> (r: Result<()>)
         requires old(self).record_sample_pre(stats@, draws@, info)
         ensures old(self).record_sample_post(final(self), stats@, draws@, info, r);
+    // ---- finalize / inspect / flush (src/storage/core.rs).  `fin_rel(r)`: "r is what finalising THIS storage value
+    // yields" - an uninterpreted relation here (the combine loop bodies of the real `finalize` are proved separately,
+    // its iteration scaffold is dropped), which is all `inspect` needs: C14 "inspecting a trace succeeds and yields
+    // exactly the recorded values" = inspect returns Some(what finalize of an equal storage yields), never None.
+    type Finalized;
+    spec fn fin_rel(&self, r: Result<Self::Finalized>) -> bool;
+    fn finalize(self) -> (r: Result<Self::Finalized>)
+        ensures self.fin_rel(r);
+    spec fn inspect_post(&self, r: Result<Option<Self::Finalized>>) -> bool;
+    fn inspect(&self) -> (r: Result<Option<Self::Finalized>>)
+        ensures self.inspect_post(r);
+    spec fn flush_post(&self, r: Result<()>) -> bool;
+    fn flush(&self) -> (r: Result<()>)
+        ensures self.flush_post(r);
 }
+// ---- A-derive-clone for the storage itself (`self.clone()` in `inspect`): the clone is an equal value
+pub assume_specification [<HashMapChainStorage as Clone>::clone](h: &HashMapChainStorage) -> (r: HashMapChainStorage)
+    ensures r == *h;
+/// result type of the HashMap backend (the real struct holds the two combined maps; opaque here)
+pub struct HashMapResult { pub stats: HashMap<String, HashMapValue>, pub draws: HashMap<String, HashMapValue> }
+
